@@ -527,6 +527,9 @@ def correspondence(ctx):
         real_states, arr_states = [_row_state(aln)], [arr.to_dict()]
         alive_a = alive_b = True
         for op in ops:
+            if alive_a and op[0] == "keep" and max(e for _, e in op[1]) > len(aln):
+                # the kept blocks were drawn for the string state; FeatureMap.from_locations would clip them
+                alive_a = False
             if alive_a:
                 try:
                     aln = _real_model_op(aln, op)
@@ -574,7 +577,9 @@ def correspondence(ctx):
 # --------------------------------------------------------------------------
 def match_finding(f, k):
     sig = f.get("sig") or ""
-    if not any(sig == s or (s.endswith("*") and sig.startswith(s[:-1])) for s in k.get("sigs", [])):
+    import fnmatch
+
+    if not any(fnmatch.fnmatchcase(sig, s) for s in k.get("sigs", [])):
         return False
     r = k.get("restrict") or {}
     inp = f.get("input") or {}
